@@ -568,7 +568,7 @@ HELPER_SCRIPTS = {
     # opens its input, waits, then copies it: widens the window in which a shared temp copy would be overwritten
     "slowcat.sh": '#!/bin/sh\n[ -n "$1" ] || exit 0\nexec 3<"$1" || exit 1\nsleep 0.03\ncat <&3\n',
     # copies stdin to stdout, but for inputs whose first byte is odd it fails in the way named by $1
-    "failsome.sh": '#!/bin/sh\nt=$(mktemp) || exit 2\ncat > "$t"\nfirst=$(head -c 1 "$t" | od -An -tu1 | tr -d " \\n")\n'
+    "failsome.sh": '#!/bin/sh\nt=$(mktemp -p "${VERIF_HELPER_TMP:-/tmp}") || exit 2\ncat > "$t"\nfirst=$(head -c 1 "$t" | od -An -tu1 | tr -d " \\n")\n'
                    'if [ -n "$first" ] && [ $((first % 2)) -eq 1 ]; then\n  case "$1" in\n'
                    '    exit1_partial) head -c 3 "$t"; rm -f "$t"; exit 1;;\n    exit1_none) rm -f "$t"; exit 1;;\n'
                    '    segv_partial) head -c 3 "$t"; rm -f "$t"; kill -SEGV $$;;\n    segv_none) rm -f "$t"; kill -SEGV $$;;\n'
@@ -581,6 +581,9 @@ HELPERS = {"dir": None}
 def install_helpers(scratch):
     d = os.path.join(scratch, "helpers")
     os.makedirs(d, exist_ok=True)
+    # the helper scripts that are killed on purpose cannot remove their temporary file: keep those inside the scratch area
+    os.makedirs(os.path.join(scratch, "helper_tmp"), exist_ok=True)
+    os.environ["VERIF_HELPER_TMP"] = os.path.join(scratch, "helper_tmp")
     for name, body in HELPER_SCRIPTS.items():
         pth = os.path.join(d, name)
         with open(pth, "w") as f:
